@@ -39,6 +39,8 @@ type app struct {
 	cur      *abci.Snapshot
 	accepted map[uint32][]byte
 	bad      int
+
+	hashCache map[string][]byte
 }
 
 func newApp(w *world) *app {
@@ -49,7 +51,20 @@ func (a *app) genuine(s *abci.Snapshot) bool {
 	if s == nil || (s.Format != 1 && s.Format != 2) {
 		return false
 	}
-	return bytes.Equal(s.Hash, contentHash(a.w.scn.SubSeed, s.Height, s.Format, s.Chunks))
+	k := fmt.Sprintf("%d/%d/%d", s.Height, s.Format, s.Chunks)
+	a.mu.Lock()
+	want, ok := a.hashCache[k]
+	a.mu.Unlock()
+	if !ok {
+		want = contentHash(a.w.scn.SubSeed, a.w.scn.ChunkBody, s.Height, s.Format, s.Chunks)
+		a.mu.Lock()
+		if a.hashCache == nil {
+			a.hashCache = map[string][]byte{}
+		}
+		a.hashCache[k] = want
+		a.mu.Unlock()
+	}
+	return bytes.Equal(s.Hash, want)
 }
 
 func (a *app) OfferSnapshot(req abci.RequestOfferSnapshot) abci.ResponseOfferSnapshot {
@@ -102,12 +117,12 @@ func (a *app) ApplySnapshotChunk(req abci.RequestApplySnapshotChunk) abci.Respon
 		cur = &abci.Snapshot{}
 	}
 	sender := a.w.peerIndex(req.Sender)
-	a.w.log.add(Ev{K: "apply-call", P: sender, C: n, I: req.Index, B: hexs(req.Chunk), Sender: req.Sender, H: cur.Height, F: cur.Format, NCh: cur.Chunks})
+	a.w.log.add(Ev{K: "apply-call", P: sender, C: n, I: req.Index, B: encB(req.Chunk), Sender: req.Sender, H: cur.Height, F: cur.Format, NCh: cur.Chunks})
 	ctx := holdCtx{h: cur.Height, f: cur.Format, n: cur.Chunks, cur: req.Index, sender: sender}
 	a.w.sched.hold("apply", n, ctx)
 
 	// smart verdict: the app knows what the genuine content looks like
-	good := a.genuine(cur) && bytes.Equal(req.Chunk, content(a.w.scn.SubSeed, cur.Height, cur.Format, req.Index))
+	good := a.genuine(cur) && bytes.Equal(req.Chunk, content(a.w.scn.SubSeed, a.w.scn.ChunkBody, cur.Height, cur.Format, req.Index))
 	res := abci.ResponseApplySnapshotChunk{Result: abci.ResponseApplySnapshotChunk_ACCEPT}
 	a.mu.Lock()
 	if !good {
@@ -179,7 +194,7 @@ func (a *app) Info(req abci.RequestInfo) abci.ResponseInfo {
 		hh := sha256.New()
 		for i := uint32(0); i < cur.Chunks; i++ {
 			hh.Write(acc[i])
-			if !bytes.Equal(acc[i], content(a.w.scn.SubSeed, cur.Height, cur.Format, i)) {
+			if !bytes.Equal(acc[i], content(a.w.scn.SubSeed, a.w.scn.ChunkBody, cur.Height, cur.Format, i)) {
 				all = false
 			}
 		}
